@@ -64,6 +64,8 @@ def verify(names: list[str], budgets=(8, 30, 60), verbose=False):
             if verbose:
                 traceback.print_exc()
     obs = discharge(vcs, budgets)
+    from ..cxx.verify import _canaries
+    obs += _canaries(vcs)
     for q, normal in covers.items():
         obs.append(Obligation(id=f'{q}::COVER::normal-exit-reachable', function=q, cls='COVER',
                               status='discharged' if normal > 0 else 'failed', backend='symex',
